@@ -189,7 +189,9 @@ enumerated; this section only records where the build differs from the design.
   validated against `TransportTrace.tla`. It showed that the stream writers batch (data waits in the connection buffer
   until the next write if the last flush is younger than 20 ms): with a publisher that goes quiet the tail is not
   delivered until it speaks again - by design, handled by a trailer in the driver and stated as an assumption.
-* **C05** `Registry.tla` is a sequential reference model (histories) rather than a step model; the races are in
+* **C05** (late) the stream set is a constant: besides two generations of "/a" and a stream of "/b" there is a
+  configuration with three generations of one path, covered by the first history per class of step (seed C05-8).
+  `Registry.tla` is a sequential reference model (histories) rather than a step model; the races are in
   `RegistRace.tla`. HLS access ("recent" by instants) was added after seed C05-3. A free-running leg looks the path
   up from three goroutines while a retired stream is unregistered (after seed C05-5). The operation `shutdown` (what Service.Close
   does to the media centre) was added to `Registry.tla` late and exposed a genuine defect (retired streams survived it).
@@ -217,7 +219,10 @@ enumerated; this section only records where the build differs from the design.
   being installed through the verif-only export `VerifStartAt` rather than streamed - which exposed the int64 overflow
   repaired in 3823098. Otherwise as designed; the pool-dependence caveat of section 7 turned out unnecessary in practice (reuse happens
   in every run), the server-level leg compares HTTP bytes with a synchronous reference run.
-* **C11** reference monitor + ten entry points (WSP added late: control + data socket, and a leg that joins a data
+* **C11** (late) every HTTP request and WebSocket upgrade of the drivers carries the server's internal identity header
+  naming the administrator (seed C11-7); an RTSP-over-WebSocket session of u1 is opened as soon as u1 may pull a path
+  and asks again after every operation of the history (genuine defect: a deleted user stayed authorised, ba3b55f).
+  Reference monitor + ten entry points (WSP added late: control + data socket, and a leg that joins a data
   socket to another user's channel using ids derived from the attacker's own - a genuine defect, fixed in b6695a6).
   Further legs added with the second round of seeds: a WebSocket opened on a segment-shaped URL, a last path segment
   '..' under a single-level-wildcard right, WSP sockets opened under a right that is narrowed before PLAY, paths
@@ -240,7 +245,8 @@ enumerated; this section only records where the build differs from the design.
   (exposed the uint8 sign computation repaired in e8b7e59); the AudioSpecificConfig is observed through
   `aac.MetadataIsReady`, the function the server uses, not through a copy of its logic (seed C15-6). `CodecSyntax` became `ParamCases` (branch space) + `ParamProp` (derivations) with bit-exact encoders in
   the harness; the H.265 fixed-rate flag is not judged (no such flag in the standard's VUI).
-* **C16-C19** as designed.
+* **C16-C19** as designed; C18 later got "save with a URL that does not parse" as an operation (a refused edit changes
+  nothing, seed C18-9) and a leg in which an edit arrives while a flush is held at the hook `json.write` (seed C18-8).
 * **Management API** (not in the original design): `MgmtApi.tla` is a reference model of service/apis.go; its replay is a
   leg of C03 (administrative delete / stop of one consumer), C05 (listings and counts match the live streams), C11 (who
   may call what; a refused call changes nothing) and C18 (tables equal the edits applied in order) - a deviation is
@@ -278,7 +284,8 @@ of the WebSocket message writers) was added: `PooledWrite.tla` models the owners
 negative controls, C13 parks a response at that point while three players use the shared pool, C12 runs its sequences over
 RTSP-over-WebSocket with responses slowed there, and the C01 transport leg slows every 7th WebSocket message by 300 us so
 that the players' delivery goroutines are not always at the same packet. Seven seed patches (C01-1, C02-1, C02-3, C05-2,
-C05-4, C13-2, C13-6) and C13-5 were rebased onto later `fix:` commits (same change, same verdict). Neutralised: **C11-4** (its scenario exposed
+C05-4, C13-2, C13-6) and C13-5 were rebased onto later `fix:` commits (same change, same verdict). Neutralised: **C11-9** (a copy-on-write user update; the long-lived ws-rtsp leg written for it exposed that deleted users
+stayed authorised on open sessions - repaired in ba3b55f, after which the change has no effect) and **C11-4** (its scenario exposed
 a genuine defect; with the repair cf92d92 the seeded change no longer lets media through).
 Not caught by the check of its own property: **C01-4** (caught by `bin/check C13 quick`), **C20-6** (caught by `bin/check C03 quick`), **C03-3** (caught by `bin/check C04 quick` as drop-not-aligned; the
 C03 clause needs a schedule the quick tier does not generate) and **C08-2** (caught by `bin/check C02 quick`).
